@@ -2417,7 +2417,11 @@ func (c *Checker) checkRecordPair(node ast.ExpressionNode) (n ast.ExpressionNode
 	case *ast.DoubleSplatExpressionNode:
 		return c.checkRecordDoubleSplatExpression(p)
 	default:
-		panic(fmt.Sprintf("invalid map element node: %#v", node))
+		c.addFailure(
+			"invalid map element, expected a key-value pair, an identifier or a double splat",
+			node.Location(),
+		)
+		return node, types.Untyped{}, types.Untyped{}
 	}
 }
 
